@@ -45,7 +45,7 @@ class Gen:
         self.r = random.Random(seed)
         self.o = dict(max_tag=32767, gds_props=True, oas_props=False, paths=True, rpaths=True, nonsimple=True,
                       big_polys=False, max_cells=5, neg_mag=False, ref_by_name=True, label_transform=True,
-                      ext_neg=True, reps=True, rep_zero=False, frac=True, round_ends=True)
+                      ext_neg=True, reps=True, rep_zero=False, frac=True, round_ends=True, odd_widths=False)
         if opts:
             self.o.update(opts)
 
@@ -223,7 +223,7 @@ class Gen:
         simple = (not self.o['nonsimple']) or r.random() < 0.6
         els = []
         for i in range(nel):
-            w = self.on_grid(g, 1, 10) * 2
+            w = self.on_grid(g, 1, 10) * 2 if not self.o.get('odd_widths') else self.on_grid(g, 1, 21)
             off = 0.0 if (nel == 1 and r.random() < 0.7) else (i - (nel - 1) / 2) * self.on_grid(g, 8, 14) * 2
             ends = [0, 2, 3] + ([1] if self.o['round_ends'] else [])
             end = r.choice(ends)
@@ -246,7 +246,7 @@ class Gen:
         simple = (not self.o['nonsimple']) or r.random() < 0.6
         els = []
         for i in range(nel):
-            w = self.on_grid(g, 1, 10) * 2
+            w = self.on_grid(g, 1, 10) * 2 if not self.o.get('odd_widths') else self.on_grid(g, 1, 21)
             off = 0.0 if (nel == 1 or simple) else (i - (nel - 1) / 2) * self.on_grid(g, 8, 14) * 2
             ends = [0, 2, 3] + ([1] if self.o['round_ends'] else [])
             end = r.choice(ends)
